@@ -4,8 +4,8 @@
    worker 1 = the data goroutine (one token per element, then forwards it to out 0) - Pipe/Stages.v,
    mirroring pipe.Throttling.  [tokens s] = tokens pushed so far.
 
-   PARTIAL with respect to the property's rate clause.  Proved, for every ops, interval, capacities,
-   arrival pattern, consumer pace and ANY way the virtual clock advances:
+   PARTIAL only with respect to the upper half of the exact schedule (last item).  Proved, for every ops,
+   interval, capacities, arrival pattern, consumer pace and ANY way the virtual clock advances:
      - content: exactly the input elements, in order, once each; closes when the input closes; no panic;
        no deadlock (only the pacer's timer can be what everybody waits for);
      - C13_tokens_rate: the pacer pushes at most ops tokens per interval counted from the start:
@@ -14,13 +14,27 @@
        and every element made available on the output ([made s] = received from out 0 + buffered in out 0),
        plus the one the data goroutine holds after its token receive ([hold s]), has consumed a token:
        made + hold <= tokens taken from the token channel <= tokens pushed;
-     - C13_deliveries_rate: hence, before cancel, deliveries by time t <= ops * (t / interval + 1).
-   NOT proved as theorems (checked by the correspondence oracle on every explored virtual-time schedule):
-     - the sliding-window form "no window of length interval sees more than 2*ops + 1 + c deliveries";
-     - the exact schedule floor(i/ops)*interval under maximal progress with input always available. *)
+     - C13_deliveries_rate: hence, before cancel, deliveries by time t <= ops * (t / interval + 1);
+     - C13_window (the sliding window): for two points s1, s2 of one run with now s2 < now s1 + interval and no
+       cancel at s2, the consumer has received at most ops + cap(ctl) + 1 + cap(out) elements between them;
+       C13_window_go: with the channels pipe.Throttling makes (ctl := make(chan struct{}, ops),
+       out := make(chan A, cap(in)), c = cap(in)) that is 2*ops + 1 + c.  s1 ranges over every reachable state,
+       in particular the one just before the first delivery of a window, so this is every HALF-OPEN window
+       [t, t + interval).  The closed window [t, t + interval] is not bounded by 2*ops + 1 + c: a pacer waking at t
+       pushes ops tokens, sleeps until exactly t + interval and pushes ops more at that instant
+       (C13_closed_window_refuted: 4 deliveries in [100, 110] with ops = 1, c = 0, interval = 10).
+       C13_window_tight: the bound is attained (ops = 1, c = 0: 3 deliveries at one instant after an idle period),
+       which also shows the hypotheses of C13_window are satisfiable;
+     - C13_tokens_window: the pacer pushes at most ops tokens between two such points (cancelled or not);
+     - C13_delivery_not_early: element number i (0-based) is not available on the output before
+       floor(i/ops)*interval - the lower half of the exact schedule, for any clock policy.
+   NOT proved as a theorem (checked by the correspondence oracle on every explored steady virtual-time schedule):
+     - the upper half of the exact schedule: under maximal progress with input always available and the consumer
+       always ready, element i is delivered no later than one interval after floor(i/ops)*interval
+       (a liveness statement about one particular scheduling policy, not about all runs). *)
 From Coq Require Import List ZArith NArith.
 From Golem Require Import Base.Lists Pipe.Pool Pipe.Stages Pipe.PoolSteps Pipe.PoolLive Pipe.PoolSeq
-     Pipe.PoolThrottle Pipe.PoolThrottleRate Pipe.PoolThrottleDeliver.
+     Pipe.PoolThrottle Pipe.PoolThrottleRate Pipe.PoolThrottleDeliver Pipe.PoolThrottleWindow.
 Import ListNotations.
 
 Theorem C13_throttle_prefix : forall (ops : nat) (interval : N) (icaps ocaps : list nat) (s : state),
@@ -87,3 +101,54 @@ Theorem C13_deliveries_rate : forall (ops : nat) (interval : N) (icaps ocaps : l
   (N.of_nat (made s) <= N.of_nat ops * (now s / interval + 1))%N.
 Proof. exact deliveries_rate. Qed.
 Print Assumptions C13_deliveries_rate.
+
+(* the pacer pushes at most ops tokens between two points of a run that are less than interval apart *)
+Theorem C13_tokens_window : forall (ops : nat) (interval : N) (icaps ocaps : list nat) (s1 : state) (tr : list ev) (s2 : state),
+  let c := throttle_stage ops interval icaps ocaps in
+  reachable c s1 -> exec_from c s1 tr = Some s2 -> (now s2 < now s1 + interval)%N ->
+  (tokens s2 <= tokens s1 + ops)%nat.
+Proof. exact window_tokens. Qed.
+Print Assumptions C13_tokens_window.
+
+(* THE SLIDING WINDOW: before cancel, no half-open time window [t, t + interval) sees more than
+   ops + cap(ctl) + 1 + cap(out) deliveries (ctl = out 1, out = out 0) *)
+Theorem C13_window : forall (ops : nat) (interval : N) (icaps ocaps : list nat) (tr1 tr2 : list ev) (s1 s2 : state),
+  let c := throttle_stage ops interval icaps ocaps in
+  exec c tr1 = Some s1 -> exec_from c s1 tr2 = Some s2 -> cancelled s2 = false -> (now s2 < now s1 + interval)%N ->
+  (length (delivered s2 0) <= length (delivered s1 0) + ops + nth_cap ocaps 1 + 1 + nth_cap ocaps 0)%nat.
+Proof. exact window_deliveries. Qed.
+Print Assumptions C13_window.
+
+(* ... that is 2*ops + 1 + c for the channels pipe.Throttling makes: cap(ctl) = ops, cap(out) = cap(in) = c *)
+Theorem C13_window_go : forall (ops : nat) (interval : N) (c : nat) (tr1 tr2 : list ev) (s1 s2 : state),
+  let cf := throttle_stage ops interval [c] [c; ops] in
+  exec cf tr1 = Some s1 -> exec_from cf s1 tr2 = Some s2 -> cancelled s2 = false -> (now s2 < now s1 + interval)%N ->
+  (length (delivered s2 0) <= length (delivered s1 0) + (2 * ops + 1 + c))%nat.
+Proof. exact window_deliveries_go. Qed.
+Print Assumptions C13_window_go.
+
+(* non-vacuity and tightness: ops = 1, interval = 10, c = 0; after an idle period 3 = 2*1+1+0 elements are
+   received at one instant (the held one, one for the waiting token, one for the token of the pacer's new round) *)
+Theorem C13_window_tight :
+  exec wx_cfg wx_idle = Some wx_s1 /\ exec_from wx_cfg wx_s1 wx_burst = Some wx_s2 /\
+  cancelled wx_s2 = false /\ (now wx_s2 < now wx_s1 + 10)%N /\
+  delivered wx_s1 0 = [] /\ delivered wx_s2 0 = [100%Z; 101%Z; 102%Z].
+Proof. exact window_bound_tight. Qed.
+Print Assumptions C13_window_tight.
+
+(* the closed window [t, t + interval] is NOT bounded by 2*ops + 1 + c *)
+Theorem C13_closed_window_refuted :
+  ~ (forall (ops : nat) (interval : N) (c : nat) (tr1 tr2 : list ev) (s1 s2 : state),
+       let cf := throttle_stage ops interval [c] [c; ops] in
+       exec cf tr1 = Some s1 -> exec_from cf s1 tr2 = Some s2 -> cancelled s2 = false -> (now s2 <= now s1 + interval)%N ->
+       (length (delivered s2 0) <= length (delivered s1 0) + (2 * ops + 1 + c))%nat).
+Proof. exact closed_window_refuted. Qed.
+Print Assumptions C13_closed_window_refuted.
+
+(* element number i (0-based: i < made s, made = received from + buffered in out 0) is not available on the output
+   before floor(i/ops)*interval, for any clock advance policy *)
+Theorem C13_delivery_not_early : forall (ops : nat) (interval : N) (icaps ocaps : list nat) (s : state) (i : nat),
+  reachable (throttle_stage ops interval icaps ocaps) s -> cancelled s = false -> (i < made s)%nat ->
+  (N.of_nat i / N.of_nat ops * interval <= now s)%N.
+Proof. exact delivery_not_early. Qed.
+Print Assumptions C13_delivery_not_early.
